@@ -14,7 +14,7 @@ def site_of(e):
     return ""
 
 
-def run_cfg(src, cfg=None, timeout=30):
+def run_cfg(src, cfg=None, timeout=8):
     """Run the real inference under a configuration dict. Returns ("ok", {name: prob}) or ("error", (stage, exc, site)).
 
     cfg keys: engine (dict of DefaultEngine kwargs), ground (dict passed to LogicFormula.create_from),
@@ -40,6 +40,8 @@ def run_cfg(src, cfg=None, timeout=30):
             else:
                 engine = None
             gkw = dict(cfg.get("ground") or {})
+            if isinstance(gkw.get("propagate_weights"), str):
+                gkw["propagate_weights"] = {"prob": SemiringProbability(), "log": SemiringLogProbability()}[gkw["propagate_weights"]]
             if engine is not None:
                 gkw["engine"] = engine
             lf = LogicFormula.create_from(PrologString(src), **gkw)
